@@ -32,7 +32,8 @@ OPEN_TYPE_oer_get(const asn_codec_ctx_t *opt_codec_ctx,
     }
 
     selected = elm->type_selector(td, sptr);
-    if(!selected.presence_index) {
+    if(!selected.presence_index || !selected.type_descriptor
+       || selected.presence_index > elm->type->elements_count) {
         ASN__DECODE_FAILED;
     }
 
